@@ -64,6 +64,8 @@ class ISOTPConfig(BaseModel):
         "rx_ext_address",
         "tx_padding",
         "rx_padding",
+        "frame_txtime",
+        "tx_dl",
         mode="before",
     )
     def auto_int(cls, v: str) -> int:
